@@ -1268,19 +1268,15 @@ class DeterministicOde(BaseOdeModel):
         sensJacobianOfState = GJ + self.sens_jacobian_state(state_param, t)
 
         if by_state:
-            arrangeVector = np.zeros(self.num_state * self.num_param)
-            k = 0
-            for j in range(0, self.num_param):
-                for i in range(0, self.num_state):
-                    if i == 0:
-                        arrangeVector[k] = (i*self.num_state) + j
-                    else:
-                        arrangeVector[k] = (i*(self.num_state - 1)) + j
-                    k += 1
-
-            outJ = outJ[np.array(arrangeVector,int),:]
-            idx = np.array(arrangeVector, int)
-            sensJacobianOfState = sensJacobianOfState[idx,:]
+            # the sensitivities arrive state-major (C order): hand them to the
+            # helper in the parameter-major order it expects, move row
+            # k*nS + i to row i*nP + k, and the sensitivity block is J (x) I
+            nS, nP = self.num_state, self.num_param
+            sens = np.reshape(state_param[nS::], (nS, nP)).flatten('F')
+            GS = self.eval_sens_jacobian_state(time=t, state=state, sens=sens)
+            idx = np.arange(nS*nP).reshape(nP, nS).T.flatten()
+            sensJacobianOfState = (GJ + GS)[idx,:]
+            outJ = np.kron(J, np.eye(nP))
         # The Jacobian of the ode, then the sensitivities w.r.t state and
         # the sensitivities. In block form.  Theoretically, only the diagonal
         # blocks are important but we output the full matrix for completeness
